@@ -371,7 +371,8 @@ def main(argv):
               repo=REPO)
     # runs against a scratch tree (seeded changes) must not overwrite the
     # evidence of the real tree
-    evdir = "evidence" if REPO == "/repo" else "scratch_evidence"
+    evdir = "evidence" if (REPO == "/repo" and not args.only) else \
+        "scratch_evidence"
     os.makedirs(os.path.join(VERIF, evdir), exist_ok=True)
     tmp = os.path.join(VERIF, evdir, ".%s.tmp" % pid)
     with open(tmp, "w") as f:
